@@ -155,7 +155,8 @@ def merge(reports):
 
 
 def make_trace(prop, v, tier):
-    return {"format": TRACE_FORMAT, "property": prop, "clause": v["violation"]["clause"], "seed": v["seed"],
+    return {"format": TRACE_FORMAT, "property": prop, "clause": v["violation"]["clause"],
+            "seed": v["trace_seed"] if v.get("trace_seed") is not None else v["seed"], "run_seed": v["seed"],
             "tier": tier, "env": {"PYTHONHASHSEED": str(v.get("hashseed", "1")), "python": sys.version.split()[0]},
             "config": v.get("config"), "ops": v["ops"], "violation": v["violation"], "minimised": False,
             "original_ops": len(v["ops"])}
